@@ -485,10 +485,8 @@ func loadHmtx(ld *ot.Loader, numGlyphs int) (*tables.Hhea, tables.Hmtx, error) {
 		return nil, tables.Hmtx{}, err
 	}
 
-	rawMetrics, err := ld.RawTable(ot.MustNewTag("hmtx"))
-	if err != nil {
-		return nil, tables.Hmtx{}, err
-	}
+	// the header is used even without metrics (as in Harfbuzz) : these are then empty
+	rawMetrics, _ := ld.RawTable(ot.MustNewTag("hmtx"))
 
 	return loadHVtmx(rawHead, rawMetrics, numGlyphs)
 }
@@ -499,10 +497,8 @@ func loadVmtx(ld *ot.Loader, numGlyphs int) (*tables.Hhea, tables.Hmtx, error) {
 		return nil, tables.Hmtx{}, err
 	}
 
-	rawMetrics, err := ld.RawTable(ot.MustNewTag("vmtx"))
-	if err != nil {
-		return nil, tables.Hmtx{}, err
-	}
+	// the header is used even without metrics (as in Harfbuzz) : these are then empty
+	rawMetrics, _ := ld.RawTable(ot.MustNewTag("vmtx"))
 
 	return loadHVtmx(rawHead, rawMetrics, numGlyphs)
 }
